@@ -167,6 +167,12 @@ func main() {
 		ck.runTimeout = 10 * time.Second
 	}
 
+	// replay files of earlier runs of this check are stale
+	if old, _ := filepath.Glob(filepath.Join(outDir(), "replays", id+"-*.json")); len(old) > 0 {
+		for _, f := range old {
+			os.Remove(f)
+		}
+	}
 	// regression corpus first
 	ck.regression()
 
